@@ -12,6 +12,20 @@ import (
 	"path"
 )
 
+// currentAttrs returns fresh attributes for a handle's object, falling back to
+// the attributes remembered in the handle when the object cannot be examined.
+func (h *NFSProcedureHandler) currentAttrs(node *NFSNode) (NFSAttrs, bool) {
+	if attrs, err := h.server.handler.GetAttr(node); err == nil && attrs != nil {
+		return *attrs, true
+	}
+	node.mu.RLock()
+	defer node.mu.RUnlock()
+	if node.attrs == nil {
+		return NFSAttrs{}, false
+	}
+	return *node.attrs, true
+}
+
 // handleLookup handles NFSPROC3_LOOKUP - look up filename
 func (h *NFSProcedureHandler) handleLookup(body io.Reader, reply *RPCReply, authCtx *AuthContext) (*RPCReply, error) {
 	handleVal, err := xdrDecodeFileHandle(body)
@@ -39,14 +53,10 @@ func (h *NFSProcedureHandler) handleLookup(body io.Reader, reply *RPCReply, auth
 	node.mu.RUnlock()
 
 	if !isDir {
-		// R4: Copy attrs under RLock
-		node.mu.RLock()
-		if node.attrs == nil {
-			node.mu.RUnlock()
+		nodeAttrsCopy, ok := h.currentAttrs(node)
+		if !ok {
 			return nfsErrorWithPostOp(reply, NFSERR_IO), nil
 		}
-		nodeAttrsCopy := *node.attrs
-		node.mu.RUnlock()
 		var buf bytes.Buffer
 		xdrEncodeUint32(&buf, NFSERR_NOTDIR)
 		xdrEncodeUint32(&buf, 1)
@@ -67,14 +77,10 @@ func (h *NFSProcedureHandler) handleLookup(body io.Reader, reply *RPCReply, auth
 		if h.server.options.Debug {
 			h.server.logger.Printf("LOOKUP: '%s' not found: %v", lookupPath, err)
 		}
-		// R4: Copy attrs under RLock
-		node.mu.RLock()
-		if node.attrs == nil {
-			node.mu.RUnlock()
+		nodeAttrsCopy, ok := h.currentAttrs(node)
+		if !ok {
 			return nfsErrorWithPostOp(reply, NFSERR_IO), nil
 		}
-		nodeAttrsCopy := *node.attrs
-		node.mu.RUnlock()
 		var buf bytes.Buffer
 		xdrEncodeUint32(&buf, mapError(err))
 		xdrEncodeUint32(&buf, 1)
@@ -94,9 +100,10 @@ func (h *NFSProcedureHandler) handleLookup(body io.Reader, reply *RPCReply, auth
 	lookupNode.mu.RLock()
 	lookupAttrsCopy := *lookupNode.attrs
 	lookupNode.mu.RUnlock()
-	node.mu.RLock()
-	nodeAttrsCopy := *node.attrs
-	node.mu.RUnlock()
+	nodeAttrsCopy, ok := h.currentAttrs(node)
+	if !ok {
+		return nfsErrorWithPostOp(reply, NFSERR_IO), nil
+	}
 
 	var buf bytes.Buffer
 	xdrEncodeUint32(&buf, NFS_OK)
